@@ -67,8 +67,9 @@ def main():
         res['demo_with'] = {'rc': rc1, 'tail': o1[-400:]}
         if not skip_tests:
             tests = TESTS.get(prop, TESTS['proto'])
-            rc, out = sh(f'flock /tmp/pytest.lock /venv/bin/python -m pytest -q -p no:cacheprovider --timeout=300 -x '
-                         f'{" ".join(tests)} 2>&1 | tail -15', cwd=wt, timeout=3000)
+            # a private network namespace per run: the tests bind fixed TCP ports, other runs on this machine must not collide
+            rc, out = sh(f'unshare -n sh -c "ip link set lo up; /venv/bin/python -m pytest -q -p no:cacheprovider --timeout=300 '
+                         f'{" ".join(tests)} 2>&1 | tail -15"', cwd=wt, timeout=3000)
             fails = [l for l in out.splitlines() if l.startswith('FAILED') and not any(k in l for k in KNOWN_FAIL)]
             res['tests'] = {'files': tests, 'failed': fails, 'tail': out[-300:]}
         rc, out = sh(f'./check {prop} --tier {tier}', cwd='/verif', env=dict(ENV, VERIF_REPO=wt), timeout=3600)
